@@ -3,6 +3,10 @@ package animenc
 import (
 	"bytes"
 	"fmt"
+	"image"
+	"time"
+
+	"github.com/deepteams/webp/animation"
 
 	. "verifharness/hlib"
 )
@@ -40,6 +44,15 @@ func fillerDisposed(o *Outcome, k int) bool {
 		}
 	}
 	return false
+}
+
+// metaKept: the metadata set on the encoder is in the file, byte for byte.
+func metaKept(c *Ctx, h *History, o *Outcome, rep Replay) string {
+	if !bytes.Equal(o.ICC, h.ICC) || !bytes.Equal(o.EXIF, h.EXIF) || !bytes.Equal(o.XMP, h.XMP) {
+		c.Violate("metadata-lost", "metadata set on the animation encoder is not in the written file", rep)
+		return "metadata-lost"
+	}
+	return ""
 }
 
 // EvalLossless evaluates C08 directly on the implementation's observable behaviour:
@@ -90,6 +103,9 @@ func EvalLossless(c *Ctx, h *History, o *Outcome) string {
 		}
 		c.Violate(key, rep.Note, rep)
 		return key
+	}
+	if k := metaKept(c, h, o, rep); k != "" {
+		return k
 	}
 	if len(gin) >= 2 {
 		if o.Still {
@@ -179,5 +195,199 @@ func EvalAlpha(c *Ctx, h *History, o *Outcome) string {
 			return key
 		}
 	}
+	return metaKept(c, h, o, rep)
+}
+
+// subImageFrames reports whether the history hands AddFrame an *image.NRGBA that is not a
+// compact origin-(0,0) buffer (sub-image with a non-zero origin, or padded stride).
+func subImageFrames(h *History) bool {
+	for _, f := range h.Frames {
+		if f.Placement == 1 || f.Placement == 4 {
+			return true
+		}
+	}
+	return false
+}
+
+// Compact returns the same history with every *image.NRGBA input given as a compact buffer.
+func Compact(h *History) *History {
+	g := *h
+	g.Frames = append([]Frame(nil), h.Frames...)
+	for i := range g.Frames {
+		if g.Frames[i].Placement == 1 || g.Frames[i].Placement == 4 {
+			g.Frames[i].Placement = 0
+		}
+	}
+	return &g
+}
+
+// RunAndEval runs a history and evaluates the property with eval (EvalLossless / EvalAlpha).
+// A violation of a history with sub-image inputs is attributed to the input placement
+// (key "nrgba-subimage-input") only if the same history with compact inputs has no violation;
+// the outcome returned for the correspondence is then the compact run's (the model takes
+// pictures, not Go image layouts; the layout defect is reported through the violation).
+func RunAndEval(c *Ctx, h *History, rng *Rand, eval func(*Ctx, *History, *Outcome) string) (*Outcome, string) {
+	o := Run(h, rng)
+	tmp := &Ctx{}
+	if h.HasRaw() {
+		key := EvalRaw(c, h, o)
+		return o, key
+	}
+	if h.Faulty() {
+		// error injection: the show must be that of the AddFrame calls that succeeded
+		if o.Err == "noframes" {
+			return o, ""
+		}
+		ha, oa := h.Accepted(o)
+		key := eval(tmp, ha, oa)
+		for _, v := range tmp.D.Violations {
+			c.Violate("after-failed-addframe:"+v.Key, "with injected encoder failures (calls "+fmt.Sprint(h.FailCalls)+", "+fmt.Sprint(len(o.Rejected))+" rejected AddFrame calls): "+v.Desc, Replay{History: slim(h), Note: v.Desc})
+		}
+		if key != "" {
+			key = "after-failed-addframe:" + key
+		}
+		return o, key
+	}
+	key := eval(tmp, h, o)
+	corr := o
+	if subImageFrames(h) {
+		// the correspondence always uses the compact run (equal to the real one unless the
+		// encoder depends on the storage layout; then the difference is counted)
+		o2 := Run(Compact(h), rng)
+		if o2.ImplLine("px") != o.ImplLine("px") {
+			c.Count("subimage-input:file-differs-from-compact-input")
+		}
+		corr = o2
+		if key != "" && eval(&Ctx{}, h, o2) == "" {
+			v := tmp.D.Violations[0]
+			c.Violate("nrgba-subimage-input", "an *image.NRGBA frame given as a sub-image (non-zero origin or padded stride) is not read as its Bounds() picture: "+v.Desc, v.Replay)
+			return corr, "nrgba-subimage-input"
+		}
+	}
+	for _, v := range tmp.D.Violations {
+		c.Violate(v.Key, v.Desc, v.Replay)
+	}
+	return corr, key
+}
+
+// RefShow is the show a history with pre-encoded frames is expected to play: every AddFrame
+// picture as the whole canvas, every raw frame composited by the container rules at its offset
+// (computed with AnimDecoder, whose agreement with the specification is C09).
+func RefShow(h *History) (cs [][]byte, ds []int) {
+	an := &animation.Animation{CanvasWidth: h.W, CanvasHeight: h.H}
+	for i, f := range h.Frames {
+		fr := animation.Frame{Duration: time.Duration(f.DurMS) * time.Millisecond, HasAlpha: true}
+		if ro := f.RawOp; ro != nil {
+			im := image.NewNRGBA(image.Rect(0, 0, f.W, f.H))
+			copy(im.Pix, f.Pix)
+			fr.Image, fr.OffsetX, fr.OffsetY = im, ro.X, ro.Y
+			if ro.ViaAddFrame {
+				fr.OffsetX, fr.OffsetY = 0, 0
+			}
+			fr.Blend, fr.Dispose = animation.BlendAlpha, animation.DisposeNone
+			if ro.BlendNone && !ro.ViaAddFrame {
+				fr.Blend = animation.BlendNone
+			}
+			if ro.DispBG && !ro.ViaAddFrame {
+				fr.Dispose = animation.DisposeBackground
+			}
+		} else {
+			im := image.NewNRGBA(image.Rect(0, 0, h.W, h.H))
+			copy(im.Pix, h.Pad(i))
+			fr.Image, fr.Blend = im, animation.BlendNone
+		}
+		an.Frames = append(an.Frames, fr)
+	}
+	d, err := animation.NewAnimDecoder(an)
+	if err != nil {
+		return nil, nil
+	}
+	for d.HasNext() {
+		s, dur, err := d.NextFrame()
+		if err != nil {
+			return nil, nil
+		}
+		cs = append(cs, append([]byte(nil), s.Pix...))
+		ds = append(ds, int(dur/time.Millisecond))
+	}
+	return
+}
+
+// EvalRaw evaluates a history that mixes AddFrame with pre-encoded frames: the played show
+// must be the reference show (pictures, and display times when there are two or more).
+func EvalRaw(c *Ctx, h *History, o *Outcome) string {
+	rep := Replay{History: h, Frames: o.Frames}
+	if o.Err != "" {
+		key := "raw-frames:error:" + o.Err
+		if len(o.Err) >= 5 && o.Err[:5] == "PANIC" {
+			key = "raw-frames:panic"
+		}
+		c.Violate(key, "session with pre-encoded frames failed: "+o.Err, rep)
+		return key
+	}
+	if o.CW != h.W || o.CH != h.H {
+		rep.Note = fmt.Sprintf("canvas %dx%d, expected %dx%d", o.CW, o.CH, h.W, h.H)
+		c.Violate("raw-frames:canvas-size", rep.Note, rep)
+		return "raw-frames:canvas-size"
+	}
+	rcs, rds := RefShow(h)
+	gin := Collapse(rcs, rds, NormPx)
+	gout := Collapse(o.Canvases, o.Durations, NormPx)
+	if len(gin) != len(gout) {
+		rep.Note = fmt.Sprintf("%d distinct pictures played, %d expected (%d frames in the file, %d added)", len(gout), len(gin), len(o.Frames), len(h.Frames))
+		c.Violate("raw-frames:picture-count", rep.Note, rep)
+		return "raw-frames:picture-count"
+	}
+	for g := range gin {
+		if !bytes.Equal(gin[g].Canvas, gout[g].Canvas) {
+			p := firstDiff(gin[g].Canvas, gout[g].Canvas, 4)
+			rep.Note = fmt.Sprintf("picture %d: pixel (%d,%d) is %v, expected %v", g, p%h.W, p/h.W, gout[g].Canvas[p*4:p*4+4], gin[g].Canvas[p*4:p*4+4])
+			c.Violate("raw-frames:playback-mismatch", rep.Note, rep)
+			return "raw-frames:playback-mismatch"
+		}
+	}
+	if len(gin) >= 2 {
+		for g := range gin {
+			if gin[g].Dur != gout[g].Dur {
+				rep.Note = fmt.Sprintf("picture %d displayed %d ms, expected %d ms", g, gout[g].Dur, gin[g].Dur)
+				c.Violate("raw-frames:display-time", rep.Note, rep)
+				return "raw-frames:display-time"
+			}
+		}
+	}
 	return ""
+}
+
+// slim drops the frame list of very long histories from replay data.
+func slim(h *History) *History {
+	if len(h.Frames) <= 64 {
+		return h
+	}
+	g := *h
+	g.Frames = h.Frames[len(h.Frames)-8:]
+	return &g
+}
+
+// LimitHistory is a session that runs into the muxer's frame limit (10000): n 1x1 / 2x1
+// pictures, all distinct from their predecessor except the given repeats near the end.
+func LimitHistory(rng *Rand, n int, tail string) *History {
+	h := &History{W: 2, H: 1, Lossless: true, Quality: 75, Kmax: rng.Pick(0, 0, 3), AtLimit: true}
+	p := []byte{0, 0, 0, 255, 9, 9, 9, 255}
+	for i := 0; i < n; i++ {
+		q := append([]byte(nil), p...)
+		q[0], q[1] = byte(i), byte(i>>8)
+		p = q
+		h.Frames = append(h.Frames, Frame{W: 2, H: 1, Pix: p, DurMS: 10})
+	}
+	// one more distinct picture: refused
+	h.Frames = append(h.Frames, Frame{W: 2, H: 1, Pix: []byte{1, 2, 3, 255, 4, 5, 6, 255}, DurMS: 10})
+	last := &h.Frames[n-1]
+	switch tail {
+	case "repeat-overflow": // the frame at the limit is followed by a repeat whose filler cannot be added
+		last.DurMS = 0xFFFFFF - 3
+		h.Frames = append(h.Frames, Frame{W: 2, H: 1, Pix: p, DurMS: 10}, Frame{W: 2, H: 1, Pix: p, DurMS: 1})
+	case "repeat": // a plain repeat still merges
+		h.Frames = append(h.Frames, Frame{W: 2, H: 1, Pix: p, DurMS: 7})
+	}
+	return h
 }
